@@ -4,10 +4,10 @@ CONSTANTS
   Unit = 10
   MaxU = 2147483647
   MaxS = 2147483647
-  Sizes <- SizesFull
+  Sizes <- SizesQuick
   Others <- OthersFull
   PoolAmounts = {4, 60}
   TraderCaps = {0, 3, 10}
-  LModes = {"fixed", "index"}
+  LModes = {"fixed"}
 INVARIANT Inv
 CHECK_DEADLOCK FALSE
